@@ -18,7 +18,7 @@ d = os.path.join(V, "seeded", name)
 meta = json.load(open(os.path.join(d, "meta.json")))
 pid = meta.get("breaks_property") or name.split("-")[0]
 WT = os.environ.get("SEED_WT", "/tmp/seedwt")
-ENV = dict(os.environ, VERIF_REPO=WT, VERIF_BUILD=os.path.join(V, "_build", "mut"))
+ENV = dict(os.environ, VERIF_REPO=WT, VERIF_BUILD=os.environ.get("SEED_BUILD", os.path.join(V, "_build", "mut")))
 st = subprocess.run(["git", "-C", WT, "status", "--porcelain", "--untracked-files=no"], capture_output=True, text=True).stdout
 if st.strip():
     print("refusing: worktree has local changes:\n" + st); sys.exit(2)
